@@ -332,6 +332,8 @@ impl<'a, 'b> Gen<'a, 'b> {
                     self.module_declaration(nest - 1);
                 } else if self.t.chance(1, 40) {
                     self.specparam_declaration();
+                } else if self.t.chance(1, 25) {
+                    self.specify_block();
                 } else if self.t.chance(1, 12) {
                     self.tag("generate-region");
                     self.kw("generate");
